@@ -154,6 +154,7 @@ def run_ops(case, ctx):
             ("rscalar", lambda: op(case["sa"], vb), [case["sa"]] * n, b, True),
             ("rlist", lambda: op(list(a), vb), a, b, True),
             ("rtuple", lambda: op(tuple(a), vb), a, b, True),
+            ("self", lambda: op(va, va), a, a, False),             # the very same object on both sides
         ]
         for form, call, xs, ys, reflected in forms:
             if n == 0 and form in ("scalar", "rscalar", "vector", "list", "tuple", "rlist", "rtuple") and not typed:
